@@ -156,13 +156,10 @@ Definition spec_line_height (fs rfs : Q) (v : value) : value :=
 Definition spec_display (abs_or_fixed floated is_root : bool) (v : value) : value :=
   if abs_or_fixed || floated || is_root then
     match v with
-    | VDisplay "inline-table" "" "" => VDisplay "block" "table" ""
-    | VDisplay a "" "" =>
-        if String.prefix "table-" a then VDisplay "block" "flow" ""
-        else if a ==s "inline" then VDisplay "block" "flow" ""
-        else v
     | VDisplay a b c =>
-        if a ==s "inline" then
+        if (a ==s "inline-table") && (b ==s "") && (c ==s "") then VDisplay "block" "table" ""   (* inline-table -> table *)
+        else if (b ==s "") && (c ==s "") && String.prefix "table-" a then VDisplay "block" "flow" ""  (* table-* -> block *)
+        else if a ==s "inline" then                                                             (* inline ... -> block *)
           if (b ==s "list-item") || (c ==s "list-item") then VDisplay "block" "flow" "list-item"
           else VDisplay "block" "flow" ""
         else v
